@@ -88,6 +88,9 @@ func init() {
 	mutant(&Mutant{Name: "c20-output-may-be-another-tasks-input", Property: "C20", File: "cmd/minify/main.go",
 		Old: "\t\t\tif j, ok := srcs[abs(task.dst)]; ok && i != j {\n\t\t\t\treturn nil, nil, fmt.Errorf(\"output %v of %v is also an input\", task.dst, task.srcs[0])\n\t\t\t} else if j, ok := dsts[abs(task.dst)]; ok {", New: "\t\t\tif j, ok := dsts[abs(task.dst)]; ok {",
 		Rule: "R20.10", Construct: "destinations checked against all sources"})
+	mutant(&Mutant{Name: "c20-cross-check-ignores-symlinks", Property: "C20", File: "cmd/minify/main.go",
+		Old: "\t\t\tif q, err := filepath.EvalSymlinks(p); err == nil {\n\t\t\t\treturn q\n\t\t\t} else if dir, err := filepath.EvalSymlinks(filepath.Dir(p)); err == nil {\n\t\t\t\treturn filepath.Join(dir, filepath.Base(p))\n\t\t\t}\n", New: "",
+		Rule: "R20.11", Construct: "in canonical form"})
 	mutant(&Mutant{Name: "c20-cross-check-compares-spellings", Property: "C20", File: "cmd/minify/main.go",
 		Old: "\t\t\t\tsrcs[abs(src)] = i\n", New: "\t\t\t\tsrcs[filepath.Clean(src)] = i\n",
 		Rule: "R20.11", Construct: "source stored in canonical form"})
@@ -2323,7 +2326,7 @@ func (c *Ctx) crossCheckSites(x *cliCtx, fd *ast.FuncDecl) []crossSite {
 }
 
 // canonicalPath: e is a call of a function (declared, or a literal bound once to a local) whose body calls
-// filepath.Abs or filepath.EvalSymlinks on its parameter.
+// filepath.Abs and filepath.EvalSymlinks.
 func (c *Ctx) canonicalPath(x *cliCtx, fd *ast.FuncDecl, e ast.Expr) bool {
 	info := x.info
 	call, ok := ast.Unparen(e).(*ast.CallExpr)
@@ -2363,22 +2366,24 @@ func (c *Ctx) canonicalPath(x *cliCtx, fd *ast.FuncDecl, e ast.Expr) bool {
 	if body == nil {
 		return false
 	}
-	hit := false
+	abs, links := false, false
 	ast.Inspect(body, func(z ast.Node) bool {
 		if ce, ok := z.(*ast.CallExpr); ok {
 			switch calleeName(info, ce) {
-			case "path/filepath.Abs", "path/filepath.EvalSymlinks":
-				hit = true
+			case "path/filepath.Abs":
+				abs = true
+			case "path/filepath.EvalSymlinks":
+				links = true
 			}
 		}
 		return true
 	})
-	return hit
+	return abs && links
 }
 
 // R20.11 (= R19.18): the comparison of destinations with sources does not depend on how a path is spelled.
 func (c *Ctx) r2011(x *cliCtx, rule string) {
-	c.R.Rule(rule, "the cross-check of createTasks compares path strings, and the same file has many spellings: with the output given as an absolute path and the inputs as relative ones — `minify -r -o $PWD/src/ src/sub/ src/x.js` — the destination $PWD/src/x.js of src/sub/x.js is not found among the sources although it is the input src/x.js, which is then overwritten without a backup. Every key stored in or looked up in the collections of that check (map index expressions inside the loops over the tasks whose key mentions .dst or a source) is the result of one canonicalising function — a function whose body calls filepath.Abs or filepath.EvalSymlinks")
+	c.R.Rule(rule, "the cross-check of createTasks compares path strings, and the same file has many spellings: with the output given as an absolute path and the inputs as relative ones — `minify -r -o $PWD/src/ src/sub/ src/x.js` — the destination $PWD/src/x.js of src/sub/x.js is not found among the sources although it is the input src/x.js, which is then overwritten without a backup. Every key stored in or looked up in the collections of that check (map index expressions inside the loops over the tasks whose key mentions .dst or a source) is the result of one canonicalising function — a function whose body calls filepath.Abs and filepath.EvalSymlinks: the open of the destination follows symbolic links (R20.6), so two spellings through a symlinked directory (`minify -r -o link/sub/ dir/` with link → dir) or a destination that is a link to another task's input name the same file too")
 	fd := c.fn(rule, x.pk, "createTasks")
 	if fd == nil {
 		return
